@@ -24,13 +24,14 @@ type errSummary struct {
 	preserve bool
 	gen      errBits
 	// for functions whose first result is a boolean constant on every return: the summary per returned constant
-	hasBool     bool
-	tPre, fPre  bool
-	tGen, fGen  errBits
+	hasBool    bool
+	tPre, fPre bool
+	tGen, fGen errBits
 }
 
 // errAnalysis is analysis A of E2: the abstract contents of the err cell at every program point of package vm.
 type errAnalysis struct {
+	clause  map[string]errSummary
 	va      *evalAnalysis
 	m       *vmModel
 	sum     map[*ssa.Function]errSummary
@@ -547,20 +548,29 @@ func (a *errAnalysis) eventSummary(fn *ssa.Function, c *ssa.Call, base ssa.Value
 	var out errSummary
 	n := 0
 	for _, o := range ev.operands {
-		f, _, direct := fieldOfPath(o)
-		if f == "" || !direct {
-			return errSummary{}, false
+		var kinds []string
+		if i := strings.LastIndex(o, ".("); i >= 0 && strings.HasSuffix(o, ")") {
+			// the operand was narrowed by a type assertion: exactly that kind
+			kinds = []string{o[i+2 : len(o)-1]}
+		} else {
+			f, _, direct := fieldOfPath(o)
+			if f == "" || !direct {
+				return errSummary{}, false
+			}
+			kinds = a.m.nm.Kinds("field:" + kind + "." + f)
 		}
-		kinds := a.m.nm.Kinds("field:" + kind + "." + f)
 		if len(kinds) == 0 {
 			return errSummary{}, false
 		}
 		for _, k := range kinds {
 			h := a.m.handlers[role][k]
-			if h == nil {
-				return errSummary{}, false
+			var sm errSummary
+			ok := false
+			if h != nil {
+				sm, ok = a.sum[h]
+			} else if a.m.inline[role][k] {
+				sm, ok = a.clauseSummary(role, k)
 			}
-			sm, ok := a.sum[h]
 			if !ok {
 				return errSummary{}, false
 			}
@@ -577,4 +587,58 @@ func (a *errAnalysis) eventSummary(fn *ssa.Function, c *ssa.Call, base ssa.Value
 		out.gen |= a.sentinel("ErrInterrupt")
 	}
 	return out, true
+}
+
+// clauseSummary: effect on the err cell of the inline clause of an evaluator for one node kind
+// (dataflow started at the clause's entry block).
+func (a *errAnalysis) clauseSummary(role, kind string) (errSummary, bool) {
+	key := role + ":" + kind
+	if a.clause == nil {
+		a.clause = map[string]errSummary{}
+	}
+	if sm, ok := a.clause[key]; ok {
+		return sm, true
+	}
+	var fn *ssa.Function
+	switch role {
+	case "expr":
+		fn = a.m.evalExpr
+	case "let":
+		fn = a.m.evalLet
+	case "stmt":
+		fn = a.m.evalStmt
+	case "op":
+		fn = a.m.evalOp
+	}
+	if fn == nil {
+		return errSummary{}, false
+	}
+	base := a.m.baseOf(fn)
+	var entry *ssa.BasicBlock
+	for _, b := range fn.Blocks {
+		for _, in := range b.Instrs {
+			if ta, ok := in.(*ssa.TypeAssert); ok && ta.CommaOk && a.m.nm.nodeKind(ta.AssertedType) == kind {
+				if x, f, ok := fieldLoad(ta.X); ok && x == base && (a.m.cell[f] == "expr" || a.m.cell[f] == "stmt" || a.m.cell[f] == "operator") {
+					entry = clauseEntry(ta)
+				}
+			}
+		}
+	}
+	if entry == nil {
+		return errSummary{}, false
+	}
+	a.clause[key] = errSummary{preserve: true} // provisional, for recursive clauses (ParenExpr)
+	fl := &errFlow{a: a, fn: fn, base: base, ent: eEntry}
+	before, _ := runForwardFrom[*errState](fn, fl, entry)
+	var u errBits
+	for _, b := range fn.Blocks {
+		if ret, ok := b.Instrs[len(b.Instrs)-1].(*ssa.Return); ok {
+			if st, ok := before[ret]; ok {
+				u |= st.cell
+			}
+		}
+	}
+	sm := errSummary{preserve: u&eEntry != 0, gen: u &^ eEntry}
+	a.clause[key] = sm
+	return sm, true
 }
